@@ -42,11 +42,17 @@ WordOf(bits) == SumSet({2^b : b \in bits})                        \* word with e
 BitsOf(x) == {b \in 0..(W - 1) : WBit(x, b)}
 
 \* constant tables, by comprehension
-VarMask(i) == WordOf({b \in 0..(W - 1) : Bit(b, i)})              \* VAR_MASK[i], i < K
-NumVarsMaskAt(n) == WordOf(0..(2^n - 1))                          \* NUM_VARS_MASK[n], n <= K
+\* (as sets of bit positions first: these are what the `consts` trace event compares, at K = 6,
+\* with the literal tables of the code)
+VarMaskBits(i) == {b \in 0..(W - 1) : Bit(b, i)}                  \* VAR_MASK[i], i < K
+NumVarsMaskBits(n) == 0..(2^n - 1)                                \* NUM_VARS_MASK[n], n <= K
+SwapMaskBits(i, j) == IF i > j THEN {b \in 0..(W - 1) : Bit(b, j) /\ ~Bit(b, i)} ELSE {}  \* SWAP_INPUT_MASKS[i][j]
+CountMaskBits(c) == {b \in 0..(W - 1) : PopCount(b) = c}          \* COUNT_MASKS[c], c <= K
+VarMask(i) == WordOf(VarMaskBits(i))
+NumVarsMaskAt(n) == WordOf(NumVarsMaskBits(n))
 NumVarsMask(n) == NumVarsMaskAt(IF n < K THEN n ELSE K)           \* num_vars_mask
-SwapMask(i, j) == IF i > j THEN WordOf({b \in 0..(W - 1) : Bit(b, j) /\ ~Bit(b, i)}) ELSE 0  \* SWAP_INPUT_MASKS[i][j]
-CountMask(c) == WordOf({b \in 0..(W - 1) : PopCount(b) = c})      \* COUNT_MASKS[c], c <= K
+SwapMask(i, j) == WordOf(SwapMaskBits(i, j))
+CountMask(c) == WordOf(CountMaskBits(c))
 
 TableSize(n) == IF n > K THEN 2^(n - K) ELSE 1
 Tab(n) == [1..TableSize(n) -> 0..AllOnes]                         \* all block vectors (well-formed or not)
